@@ -239,12 +239,52 @@ def run(ctx):
                 violations.append({"what": "after a publication answered EXDEV, a handle for the key reads %s" % d.get("content"),
                                    "classification": {"kind": "partial-read-under-fault", "call": "rename/link", "situation": "exdev"},
                                    "replay": {"kind": "fault", "scenario": L, "fault_seq": seq, "errno": "EXDEV"}})
+    # a close that releases the descriptor and still reports a failure (EINTR: Linux closes first), while
+    # another thread of the process obtains a handle from a lookup of ANOTHER key and is given the number
+    # just released: the library must leave that number alone - closing it again closes the peer's handle
+    # (and the next open in the process hands the peer's reader some other file's bytes)
+    ijobs = []
+    for w in (("plain", 300), ("sharded", 4, 1200)):
+        for pre, opl in (("secondary", G.op(0, "ensure", KEYC, "val:%s:3" % K.BIG2)), ("miss", G.op(0, "ensure", KEYC, "val:%s:3" % K.BIG1)),
+                         ("miss", G.op(0, "gou", KEYC, "replace", 0, "val:%s:3" % K.BIG1)), ("set", G.op(0, "set", KEYC, K.BIG2, 3)), ("put", G.op(0, "put", KEYC, K.BIG2, 3))):
+            L = G.header(w, (("plain",),), "none")
+            if pre == "secondary":
+                L.append(G.plant("r0/" + KEYC[0], K.BIG1))
+            L.append(G.plant("r0/otherkey", "OTHER-KEYS-VALUE"))
+            L += [G.NOFIRE, opl, G.NOFIRE, G.op(0, "get", KEYC), "snap"]
+            clean = S.run_impl(L)
+            if not clean.steps:
+                continue
+            st0 = clean.steps[0]
+            upto0 = st0["returned_at"] if st0["returned_at"] is not None else len(st0["events"])
+            for e in st0["events"][st0["staged_at"]:upto0]:
+                if e["call"] == "close" and not e["err"]:
+                    ijobs.append((w, pre, opl, L, e["seq"], str(e.get("path"))))
+    for w, pre, opl, L, seq, cpath in ijobs:
+        try:
+            impl = S.run_impl(L, fault=(seq, "EINTR"), peer_opens="r0/otherkey")
+        except Exception as ex:
+            ties.append({"what": "interrupted-close run failed", "detail": repr(ex)}); continue
+        if not impl.steps:
+            continue
+        evs = impl.steps[0]["events"]
+        at = next((i for i, e in enumerate(evs) if e["call"] == "peeropen"), None)
+        if at is None:
+            continue
+        reads += 1
+        for e in evs[at + 1:]:
+            if str(e.get("path", "")) == "r0/otherkey" and e["call"] != "peeropen":
+                violations.append({"what": "after its close of %s released the descriptor and reported EINTR, the library issued %s on the same number, which by then was another thread's lookup handle for another key (%s): that reader's handle is closed under it, and the next file opened in the process is read in its place" % (cpath, e["call"], "r0/otherkey"),
+                                   "classification": {"kind": "peer-handle-clobbered", "call": e["call"], "situation": pre},
+                                   "replay": {"kind": "fault", "scenario": L, "fault_seq": seq, "errno": "EINTR", "peer_opens": "r0/otherkey",
+                                              "trace": [T.fmt(t) for t in T.canon(evs)][-30:]}})
+                break
     seen, uniq = set(), []
     for v in violations:
         k = tuple(sorted(v["classification"].items()))
         if k not in seen:
             seen.add(k); uniq.append(v)
-    cov = {"evaluations": len(res) + len(fres) + len(cjobs) + len(xjobs) + len(pjobs), "copy_fault_runs": len(cjobs), "cross_filesystem_runs": len(xjobs), "partial_populate_runs": len(pjobs), "distinct_nontrivial": nontriv, "lookup_fault_runs": len(fres),
+    cov = {"evaluations": len(res) + len(fres) + len(cjobs) + len(xjobs) + len(pjobs) + len(ijobs), "copy_fault_runs": len(cjobs), "cross_filesystem_runs": len(xjobs), "partial_populate_runs": len(pjobs), "interrupted_close_runs": len(ijobs), "distinct_nontrivial": nontriv, "lookup_fault_runs": len(fres),
            "rule": "families {set|get, set|set, put|put, put|set, ensure|ensure, ensure|set, touch|set, promotion from a secondary cache|get, promotion|promotion, get_or_update Replace|get, maintenance (capacity exceeded, trigger firing)|get, |set, |maintenance} x front-end {plain, sharded} with multi-chunk values of 5000 and 7000 bytes: for EVERY filesystem-call boundary of every participant, a context switch to the other participant(s) which run to completion (thorough: two switches at every pair of boundaries, three participants, random schedules). Oracles: every returned handle reads a complete value of its key, at return and again after the others ran; at every scheduling point every key-named file on disk is complete and read-only; final tree likewise; each schedule replayed on the pool model and compared; plus lookups of a not-yet-marked hit whose bookkeeping calls fail (EPERM as for a reader that does not own the file): the handle still yields the whole value; plus promotion / population copies with each read, write or copy call failing once (ENOSPC, EIO): every handle obtained afterwards and every key-named file is complete; plus path-based set / put whose publishing rename / link answers EXDEV: no file is created, truncated or written under the key's own name. Non-trivial = at least two context switches.",
            "samples": [{"family": f["name"], "kind": k} for f, k, *_ in res[:3]], "traces_validated_against_impl": agree,
            "schedule_kinds": kinds, "scheduling_points_inspected": points, "handles_read": reads}
